@@ -22,7 +22,8 @@
 //	    => seq=<latest> set=<ids>
 //	reach <b> | unreach <b>              peer b's RIB gains (advertisement of the publisher processed) / loses
 //	                                     (dead-neighbor check) its path to the publisher
-//	sync <b> <off>                       peer b learns sequence number latest-off
+//	sync <b> <off>                       a Sync Interest carrying sequence number latest-off reaches peer b's SvSync
+//	prestart                             the publisher restarts (real NewRouter)      => ok <seq0>
 //	deliver <b> | timeout <b> | drain <b>  the peer's pending Interest is answered from the publisher's
 //	                                     repo / times out / answered until nothing is pending
 //	    => known=<n> latest=<n> fetching=<0|1> set=<ids> pend=<snap|seq:n|-> [steps=<n>]
@@ -197,7 +198,51 @@ func shuffledInts(r *common.Rand, n int) []int {
 	return p
 }
 
+// a destination reachable through three neighbours on three faces, two of them tied for second best; then
+// advertisements that change ONLY the neighbour holding / not holding the second-best slot (the lowest and
+// second-lowest costs and the best next hop stay): the second-best face has to follow
+func genSecondBestTie(g *common.Gen, r *common.Rand) {
+	g.Stat("second-best-tie-episode")
+	n := 5
+	g.Op("new fib %d", n)
+	d := 4
+	c := r.Range(0, 3)
+	g.Op("ping 1 1 1")
+	g.Op("ping 2 2 1")
+	g.Op("ping 3 3 1")
+	if r.Chance(1, 2) {
+		g.Op("papply %d 0 %d -", d, 100+r.Intn(numApp))
+	}
+	order := shuffledInts(r, 3)
+	for _, i := range order {
+		w := i + 1
+		cost := c + 1
+		if w == 1 {
+			cost = c
+		}
+		g.Op("adv %d %d:%d:%d:16", w, d, d, cost)
+	}
+	// raise / restore the tied neighbours one at a time
+	for round := 0; round < 2; round++ {
+		for _, w := range []int{2, 3} {
+			g.Op("adv %d %d:%d:%d:16", w, d, d, c+1+r.Range(1, 3))
+			if r.Chance(1, 3) {
+				g.Op("papply %d 0 %d -", d, 100+r.Intn(numApp))
+			}
+			g.Op("adv %d %d:%d:%d:16", w, d, d, c+1)
+		}
+	}
+	g.Op("adv 2 -")
+	g.Op("adv 3 %d:%d:%d:16", d, d, c+1)
+	g.Op("adv 2 %d:%d:%d:16", d, d, c+1)
+	g.Op("dead 3")
+}
+
 func genFib(g *common.Gen, r *common.Rand) {
+	if r.Chance(1, 8) {
+		genSecondBestTie(g, r)
+		return
+	}
 	n := r.Range(2, 6)
 	g.Op("new fib %d", n)
 	g.Stat("fib-history")
@@ -282,12 +327,35 @@ func genLog(g *common.Gen, r *common.Rand) {
 			g.Stat("reach")
 		}
 	}
+	if r.Chance(1, 3) {
+		// the publisher restarts soon after the peers learnt its first prefixes
+		g.Stat("prestart-episode")
+		for i := r.Range(2, 5); i > 0; i-- {
+			g.Op("ann %d", 100+r.Intn(numApp))
+		}
+		for b := 1; b <= k; b++ {
+			g.Op("reach %d", b)
+			g.Op("sync %d 0", b)
+			g.Op("drain %d", b)
+		}
+		g.Op("prestart")
+		for i := r.Range(1, 3); i > 0; i-- {
+			g.Op("ann %d", 100+r.Intn(numApp))
+		}
+		for b := 1; b <= k; b++ {
+			g.Op("sync %d 0", b)
+			g.Op("drain %d", b)
+		}
+	}
 	steps := r.Range(8, 40)
 	bursts := []int{3, 30, 99, 100, 101, 102, 130, 250}
 	offs := []int{0, 0, 0, 0, 1, 2, 50, 100, 101, 150}
 	for i := 0; i < steps; i++ {
 		b := r.Range(1, k)
 		switch x := r.Intn(100); {
+		case x < 3:
+			g.Op("prestart")
+			g.Stat("prestart")
 		case x < 25:
 			g.Op("ann %d", 100+r.Intn(numApp))
 			g.Stat("ann")
@@ -783,10 +851,17 @@ func execLog(f []string) string {
 		if off < high {
 			high -= off
 		}
-		sim.Nodes[b].R.VerifOnPfxSyncUpdate(a.Name, high)
-		sim.Settle()
+		// the number reaches the peer in a Sync Interest of the prefix-table sync group: real SvSync ->
+		// onPfxSyncUpdate -> prefixDataFetch
+		sim.PrefixSyncInterest(b, a.Name, high)
 		collect(b)
 		return dumpPeer(b)
+	case "prestart":
+		// the publisher crashes and boots again (takes a second): real NewRouter — new numbering from the
+		// clock, empty prefix table, new log and repo; the peers keep what they know
+		time.Sleep(time.Second)
+		sim.Restart(0)
+		return fmt.Sprintf("ok %d", pubRouter().Latest)
 	case "deliver":
 		b, ok := bOf(f[1])
 		if !ok || len(pend[b]) == 0 {
@@ -856,6 +931,9 @@ func exec(op string) string {
 			}
 			sim = dvsim.NewSim(1 + k)
 			uni = newUniverse(1 + k)
+			for b := 1; b <= k; b++ {
+				sim.StartPrefixSync(b) // the peers' real prefix-table SvSync
+			}
 			return fmt.Sprintf("ok %d", pubRouter().Latest)
 		}
 		return "bad-op"
@@ -871,7 +949,7 @@ func exec(op string) string {
 		return "skip"
 	}
 	switch f[0] {
-	case "ann", "wd", "burst", "sync", "reach", "unreach", "deliver", "timeout", "drain":
+	case "ann", "wd", "burst", "sync", "prestart", "reach", "unreach", "deliver", "timeout", "drain":
 		return execLog(f)
 	}
 	return "skip"
